@@ -480,7 +480,7 @@ func (a *Analyzer) runRegion(fr *frame, head *ssa.BasicBlock, in []*State, regio
 		for _, st := range sts {
 			a.pruneEnv(fr, b, st)
 		}
-		if len(sts) > a.K {
+		if len(sts) > a.K && !returnsAtOnce(b) {
 			sts = a.mergeStates(sts, nil)
 		}
 		for _, st := range sts {
@@ -1702,4 +1702,25 @@ func sameValue(x, y Term) bool {
 		}
 	}
 	return false
+}
+
+// returnsAtOnce: the block only selects the results and returns (the single exit of a function written as
+// `err := f(); if err == nil { ... }; return err`). States that arrive here are not folded: the return states are
+// merged afterwards by mergeRets, which keeps successful and failing returns apart; folding them here would mix the
+// receiver of a failed call into the successful result.
+func returnsAtOnce(b *ssa.BasicBlock) bool {
+	if len(b.Instrs) == 0 || len(b.Instrs) > 8 {
+		return false
+	}
+	if _, isRet := b.Instrs[len(b.Instrs)-1].(*ssa.Return); !isRet {
+		return false
+	}
+	for _, ins := range b.Instrs[:len(b.Instrs)-1] {
+		switch ins.(type) {
+		case *ssa.Phi, *ssa.UnOp, *ssa.RunDefers, *ssa.DebugRef:
+		default:
+			return false
+		}
+	}
+	return true
 }
